@@ -165,6 +165,33 @@ def run(ctx: core.Ctx):
         if not ok.all():
             i, j = np.argwhere(~ok)[0]
             ctx.fail("rolling.sum accessor", dict(series=flat[i].tolist(), window=w, nodata=nd), got[i].tolist(), s[i].tolist())
+    for _ in range(ctx.budget(6, 40)):
+        nt = rng.choice([6, 12])
+        grp = [i % 3 for i in range(nt)]
+        for nd_arg, nd_attr in ((0, -9999), (0, None), (-9999, 0), (None, 0), (None, -9999), (255, -9999)):
+            nd_eff = nd_arg if nd_arg is not None else nd_attr
+            data = np.array([[[nd_eff if rng.random() < 0.3 else rng.randint(1, 50) for _ in range(2)] for _ in range(2)] for _ in range(nt)], dtype="int16")
+            tt = np.arange(nt).astype("datetime64[D]")
+            attrs = {} if nd_attr is None else {"nodata": nd_attr}
+            da = xr.DataArray(data, dims=("time", "y", "x"), coords={"time": tt}, attrs=attrs)
+            try:
+                res = np.asarray((da.hdc.algo.mean_grp(grp) if nd_arg is None else da.hdc.algo.mean_grp(grp, nodata=nd_arg)).transpose("time", ...))
+            except Exception as e:  # noqa: BLE001
+                ctx.fail("mean_grp accessor", dict(nodata_arg=nd_arg, nodata_attr=nd_attr), repr(e), "no exception: a nodata value is available")
+                continue
+            ctx.case(("mgacc", data.tobytes(), nd_arg, nd_attr))
+            ctx.count("mean_grp accessor")
+            for yy in range(2):
+                for xx_ in range(2):
+                    s_ = data[:, yy, xx_].astype(np.int64)
+                    for g in range(3):
+                        sel = np.array(grp) == g
+                        v = s_[sel][s_[sel] != nd_eff]
+                        want = float(nd_eff) if v.size == 0 else float(v.mean())
+                        got = res[sel, yy, xx_]
+                        if not np.allclose(got, want, rtol=1e-6):
+                            ctx.fail("mean_grp accessor", dict(series=s_.tolist(), groups=grp, nodata_arg=nd_arg, nodata_attr=nd_attr, group=g), got.tolist(), want,
+                                     note="mean of the cells that are not nodata (the explicit nodata argument takes precedence over the attribute, also when it is 0)")
     ctx.trusted += ["native model driver (Hdc/Model/Discrete.lean)", "harness/props/c17.py oracle (NumPy cumulative sums)"]
 
 
